@@ -194,9 +194,9 @@ func phaseHist(c *lib.Ctx) {
 	// clock the sleep returns at once (the listeners use fresh ephemeral ports).
 	vtime.SetVirtual(time.Date(2025, 3, 1, 12, 0, 0, 0, time.UTC))
 	defer vtime.SetVirtual(time.Time{})
-	depth := 4
+	depth := 5
 	if !c.Quick() {
-		depth = 5
+		depth = 6
 	}
 	b := &lib.BFS[hop]{C: c, Ops: histAlphabet(c.Quick()), MaxDepth: depth, Workers: 12, Confirm: true,
 		Exec: func(h []hop) lib.Step {
